@@ -6,33 +6,17 @@ package chancheck
 import (
 	"encoding/json"
 	"fmt"
-	"os"
-	"path/filepath"
 	"sort"
 	"strings"
-	"sync"
 	"time"
 
 	"verif/internal/chanmodel"
 	"verif/internal/evidence"
-	"verif/internal/jbuild"
 	"verif/internal/known"
 	"verif/internal/rng"
+	"verif/internal/scripteng"
 	"verif/internal/simpool"
 )
-
-type Options struct {
-	Property    string
-	Tier        string
-	Seed        int64
-	Callbacks   bool
-	Cases       int
-	RunsPerCase int
-	Workers     int
-	MaxStates   int
-	Curated     []*chanmodel.Scenario
-	Budget      time.Duration // wall-clock cap for the batch
-}
 
 type Verdict struct {
 	Class   string
@@ -84,375 +68,6 @@ func endings(ex *chanmodel.Explorer) []string {
 	}
 	sort.Strings(l)
 	return l
-}
-
-type failure struct {
-	caseIdx int
-	run     int
-	sc      *chanmodel.Scenario
-	cfg     map[string]any
-	tape    []int
-	v       *Verdict
-	known   string
-}
-
-type engine struct {
-	opt    Options
-	env    *jbuild.Env
-	pool   *simpool.Pool
-	script string
-}
-
-func simCfg(r *rng.R) map[string]any {
-	cfg := map[string]any{}
-	switch r.Intn(4) {
-	case 0: // calm: few suspensions, no clock trouble
-		cfg["yieldWeights"] = []int{6, 1}
-		cfg["tickWeights"] = []int{40, 4, 1, 0, 0, 0, 0}
-	case 1: // busy: many suspensions and slice breaks
-		cfg["yieldWeights"] = []int{1, 1}
-		cfg["tickWeights"] = []int{10, 4, 2, 2, 6, 3, 1}
-	case 2: // clock trouble
-		cfg["tickWeights"] = []int{10, 2, 2, 2, 3, 3, 6}
-		cfg["lateWeights"] = []int{2, 2, 2, 2, 2}
-	default:
-	}
-	if r.Chance(1, 4) {
-		cfg["reorder"] = false
-	}
-	if r.Chance(1, 3) {
-		cfg["cbWeights"] = []int{1, 2}
-	}
-	return cfg
-}
-
-func (e *engine) explore(sc *chanmodel.Scenario) *chanmodel.Explorer {
-	ex := chanmodel.NewExplorer(sc, e.opt.MaxStates)
-	if !ex.Explore() {
-		return nil
-	}
-	return ex
-}
-
-func callbacksOf(sc *chanmodel.Scenario) []simpool.CallbackSpec {
-	var cbs []simpool.CallbackSpec
-	for i := range sc.Cbs {
-		cbs = append(cbs, simpool.CallbackSpec{Fn: fmt.Sprintf("cb%d", i), Args: []any{1000 + i, fmt.Sprintf("arg%d", i)}})
-	}
-	return cbs
-}
-
-func (e *engine) runScenario(id int, sc *chanmodel.Scenario, cfg map[string]any, runs []simpool.Run) ([]simpool.Result, error) {
-	raw, _ := json.Marshal(sc)
-	job := &simpool.Job{ID: id, Script: e.script, Scenario: raw, Cfg: cfg, Runs: runs, Callbacks: callbacksOf(sc)}
-	jr, err := e.pool.Do(job)
-	if err != nil {
-		return nil, err
-	}
-	return jr.Results, nil
-}
-
-// Run executes the batch and returns the process exit code.
-func Run(opt Options) int {
-	start := time.Now()
-	env, err := jbuild.Setup(strings.ToLower(opt.Property))
-	if err != nil {
-		fmt.Fprintln(os.Stderr, err)
-		return 2
-	}
-	defer env.Cleanup()
-	wl, err := env.CopyWorkload("chanscript")
-	if err != nil {
-		fmt.Fprintln(os.Stderr, err)
-		return 2
-	}
-	script := filepath.Join(env.Scratch, "chanscript.js")
-	if err := env.Compile(wl, script, false, ""); err != nil {
-		fmt.Fprintln(os.Stderr, err)
-		return 2
-	}
-	pool, err := simpool.New(filepath.Join(env.Verif, "sim", "simnode.js"), opt.Workers)
-	if err != nil {
-		fmt.Fprintln(os.Stderr, err)
-		return 2
-	}
-	defer pool.Close()
-	e := &engine{opt: opt, env: env, pool: pool, script: script}
-
-	kf, err := known.Load(env.Verif)
-	if err != nil {
-		fmt.Fprintln(os.Stderr, err)
-		return 2
-	}
-
-	counters := evidence.NewCounter()
-	interleavings := evidence.NewSet()
-	nontrivial := evidence.NewSet()
-	scenarios := evidence.NewSet()
-	var mu sync.Mutex
-	var failures []*failure
-	var infra error
-	var samples []any
-	modelStates, modelTrans := 0, 0
-
-	total := opt.Cases + len(opt.Curated)
-	idx := make(chan int, total)
-	for i := 0; i < total; i++ {
-		idx <- i
-	}
-	close(idx)
-	deadline := start.Add(opt.Budget)
-	var wg sync.WaitGroup
-	for w := 0; w < opt.Workers; w++ {
-		wg.Add(1)
-		go func() {
-			defer wg.Done()
-			for i := range idx {
-				if time.Now().After(deadline) {
-					counters.Add("cases_skipped_wallclock", 1)
-					continue
-				}
-				mu.Lock()
-				stop := infra != nil || len(failures) >= 40
-				mu.Unlock()
-				if stop {
-					continue
-				}
-				var sc *chanmodel.Scenario
-				r := rng.New(opt.Seed, opt.Property, "case", i)
-				if i < len(opt.Curated) {
-					sc = opt.Curated[i]
-					counters.Add("curated", 1)
-				} else {
-					gc := chanmodel.NewGenConfig(rng.New(opt.Seed, opt.Property, "swarm", i/25), opt.Callbacks)
-					sc = chanmodel.Generate(r, &gc)
-				}
-				ex := e.explore(sc)
-				if ex == nil {
-					counters.Add("scenarios_discarded_model_too_large", 1)
-					continue
-				}
-				cfg := simCfg(r)
-				runs := make([]simpool.Run, opt.RunsPerCase)
-				for k := range runs {
-					runs[k] = simpool.Run{Seed: rng.Derive(opt.Seed, opt.Property, "tape", i, k)}
-				}
-				if len(runs) > 0 {
-					runs[0] = simpool.Run{Tape: []int{}} // the all-default tape: the schedule real Node would most likely produce
-				}
-				results, err := e.runScenario(i, sc, cfg, runs)
-				if err != nil {
-					mu.Lock()
-					if infra == nil {
-						infra = err
-					}
-					mu.Unlock()
-					continue
-				}
-				raw, _ := json.Marshal(sc)
-				scKey := string(raw)
-				scenarios.Add(scKey)
-				mu.Lock()
-				modelStates += ex.States
-				modelTrans += ex.Trans
-				if len(samples) < 3 {
-					samples = append(samples, map[string]any{"scenario": sc, "allowed_outcomes": ex.SortedOutcomes(), "observed_first_run": chanmodel.Observe(sc, &results[0]).Outcome, "tape_first_seeded_run": results[len(results)-1].Tape})
-				}
-				mu.Unlock()
-				for k := range ex.Reach {
-					counters.Add("model_reach:"+k, 1)
-				}
-				counters.Add("allowed_outcomes_total", len(ex.Outcomes))
-				if len(ex.Outcomes) > 1 {
-					counters.Add("scenarios_with_several_allowed_outcomes", 1)
-				}
-				for k := range results {
-					res := &results[k]
-					counters.Add("runs", 1)
-					counters.Add("sim_ms", res.SimMs)
-					counters.Add("loop_turns", res.Turns)
-					counters.AddAll(prefix("fired:", res.Fired))
-					il, parked := interleaving(res)
-					interleavings.Add(scKey + il)
-					if parked {
-						nontrivial.Add(scKey + il)
-					}
-					counters.Add("ending:"+endKind(res.End), 1)
-					v := Judge(sc, ex, res)
-					if v == nil {
-						continue
-					}
-					if v.Class == "INFRA" {
-						mu.Lock()
-						if infra == nil {
-							infra = fmt.Errorf("%s", v.Message)
-						}
-						mu.Unlock()
-						continue
-					}
-					f := &failure{caseIdx: i, run: k, sc: sc, cfg: cfg, tape: res.Tape, v: v}
-					mu.Lock()
-					failures = append(failures, f)
-					mu.Unlock()
-					break // one failure per scenario is enough; it will be minimised
-				}
-			}
-		}()
-	}
-	wg.Wait()
-	if infra != nil {
-		fmt.Fprintln(os.Stderr, "infrastructure failure:", infra)
-		return 2
-	}
-
-	// ---- triage: minimise, match against known findings, report
-	sort.Slice(failures, func(a, b int) bool { return failures[a].caseIdx < failures[b].caseIdx })
-	violations := 0
-	knownHits := map[string]int{}
-	reported := map[string]bool{}
-	minimised := 0
-	for _, f := range failures {
-		if err := f.sc.Validate(); err != nil {
-			fmt.Fprintln(os.Stderr, "generator produced an invalid scenario:", err)
-			return 2
-		}
-		if id := kf.MatchChan(opt.Property, f.sc, f.v.Class, f.v.Message); id != "" {
-			knownHits[id]++
-			continue
-		}
-		if reported[f.v.Class] && minimised >= 3 {
-			violations++
-			continue
-		}
-		minimised++
-		msc, mtape, mv := e.minimise(f)
-		// a minimised failure may turn out to be a listed finding after all
-		if id := kf.MatchChan(opt.Property, msc, mv.Class, mv.Message); id != "" {
-			knownHits[id]++
-			continue
-		}
-		violations++
-		reported[f.v.Class] = true
-		raw, _ := json.Marshal(msc)
-		rp := &evidence.Replay{Property: opt.Property, Class: mv.Class, Message: mv.Message, Kind: "chanscript", Workload: raw, Sim: f.cfg, Tape: mtape,
-			Digest: evidence.Digest(mv.Class, mv.Outcome), Seed: opt.Seed, FoundAt: fmt.Sprintf("%s case %d run %d", opt.Tier, f.caseIdx, f.run)}
-		path, err := evidence.WriteReplay(env.Verif, rp)
-		if err != nil {
-			fmt.Fprintln(os.Stderr, err)
-			return 2
-		}
-		fmt.Printf("VIOLATION property=%s replay=%s\n", opt.Property, path)
-		fmt.Printf("  class=%s %s\n", mv.Class, mv.Message)
-	}
-	var kids []string
-	for id := range knownHits {
-		kids = append(kids, id)
-	}
-	sort.Strings(kids)
-	for _, id := range kids {
-		fmt.Printf("KNOWN-FINDING: property=%s %s (%d runs)\n", opt.Property, kf.Describe(id), knownHits[id])
-	}
-
-	wall := time.Since(start).Seconds()
-	runs := counters.Get("runs")
-	ev := &evidence.Evidence{PropertyID: opt.Property, Tier: opt.Tier, Seed: opt.Seed, Level: "exploration", WallS: wall, Violations: violations,
-		Coverage: map[string]any{
-			"evaluations":         runs,
-			"distinct_nontrivial": nontrivial.Len(),
-			"rule": "one evaluation = one simulated execution of a chanscript scenario under one choice tape; distinct = distinct (scenario, sequence of operation invoke/return events across goroutines); " +
-				"non-trivial = at least one operation parked (its return is not adjacent to its invoke in the global history)",
-			"samples":                 samples,
-			"scenarios":               scenarios.Len(),
-			"distinct_interleavings":  interleavings.Len(),
-			"model_states_explored":   modelStates,
-			"model_transitions":       modelTrans,
-			"simulated_ms":            counters.Get("sim_ms"),
-			"runs_per_hour":           int(float64(runs) / wall * 3600),
-			"counters":                counters.Map(),
-			"known_finding_hits":      knownHits,
-			"real_components":         []string{"gopherjs compiler built from /repo working tree", "prelude goroutines.js/types.js/prelude.js/jsmapping.js", "runtime and js natives", "chanscript compiled by that compiler"},
-			"stubbed_components":      []string{"Node event loop and timers (simnode)", "Date.now", "Math.random", "process.exit", "console"},
-			"seeds_per_scenario":      opt.RunsPerCase,
-		},
-		Assumptions: []string{
-			"the simulated event loop only produces behaviours Node/HTML timers allow (timers never early; a timer never overtakes an earlier-created one with a delay <= its own)",
-			"the reference model (DESIGN.md Appendix A) is Go's channel semantics; it was written from the specification, not from the prelude",
-			"workload programs only use packages that build against the sandbox's GOROOT",
-		},
-	}
-	if err := ev.Write(env.Verif); err != nil {
-		fmt.Fprintln(os.Stderr, err)
-		return 2
-	}
-	fmt.Printf("%s %s: %d scenarios, %d runs, %d distinct interleavings (%d non-trivial), %d violations, %d known-finding hits, %.1fs\n",
-		opt.Property, opt.Tier, scenarios.Len(), runs, interleavings.Len(), nontrivial.Len(), violations, len(kids), wall)
-	if violations > 0 {
-		return 1
-	}
-	return 0
-}
-
-func prefix(p string, m map[string]int) map[string]int {
-	o := map[string]int{}
-	for k, v := range m {
-		o[p+k] = v
-	}
-	return o
-}
-
-func endKind(end string) string {
-	if i := strings.Index(end, ":"); i >= 0 && !strings.HasPrefix(end, "exit:") {
-		return end[:i]
-	}
-	return end
-}
-
-// interleaving returns a digest of the global order of operation events and whether anything parked.
-func interleaving(res *simpool.Result) (string, bool) {
-	var b strings.Builder
-	parked := false
-	last := ""
-	for _, h := range res.Hist {
-		if len(h.A) < 3 {
-			continue
-		}
-		cur := string(h.A[0]) + "." + string(h.A[1])
-		ph := string(h.A[2])
-		b.WriteString(cur)
-		b.WriteString(ph)
-		if ph == `"ret"` && last != cur {
-			parked = true
-		}
-		if ph == `"inv"` {
-			last = cur
-		} else if ph != `"rv"` {
-			last = ""
-		}
-	}
-	return evidence.Digest(b.String()), parked
-}
-
-// ---------------------------------------------------------------- minimisation
-
-func (e *engine) failing(sc *chanmodel.Scenario, cfg map[string]any, tape []int, class string, extraSeeds int, tag string) ([]int, *Verdict) {
-	ex := e.explore(sc)
-	if ex == nil {
-		return nil, nil
-	}
-	runs := []simpool.Run{{Tape: tape}, {Tape: []int{}}}
-	for k := 0; k < extraSeeds; k++ {
-		runs = append(runs, simpool.Run{Seed: rng.Derive("shrink", tag, k)})
-	}
-	results, err := e.runScenario(-1, sc, cfg, runs)
-	if err != nil {
-		return nil, nil
-	}
-	for k := range results {
-		if v := Judge(sc, ex, &results[k]); v != nil && v.Class == class {
-			return results[k].Tape, v
-		}
-	}
-	return nil, nil
 }
 
 func cloneScenario(sc *chanmodel.Scenario) *chanmodel.Scenario {
@@ -603,149 +218,135 @@ func candidates(sc *chanmodel.Scenario) []*chanmodel.Scenario {
 	return out
 }
 
-func (e *engine) minimise(f *failure) (*chanmodel.Scenario, []int, *Verdict) {
-	sc, tape, v := f.sc, f.tape, f.v
-	evals := 0
-	for changed := true; changed && evals < 400; {
-		changed = false
-		for ci, cand := range candidates(sc) {
-			evals++
-			if evals >= 400 {
-				break
-			}
-			cand.Normalise()
-			if cand.Validate() != nil {
-				continue
-			}
-			if t, nv := e.failing(cand, f.cfg, tape, v.Class, 6, fmt.Sprint(evals, ci)); nv != nil {
-				sc, tape, v = cand, t, nv
-				changed = true
-				break
-			}
-		}
-	}
-	// tape: shortest failing prefix (missing entries read as 0), then zero what can be zeroed
-	try := func(t []int) bool {
-		if nt, nv := e.failing(sc, f.cfg, t, v.Class, 0, ""); nv != nil && equalInts(nt[:min(len(nt), len(t))], t[:min(len(nt), len(t))]) {
-			v = nv
-			return true
-		}
-		return false
-	}
-	lo, hi := 0, len(tape)
-	for lo < hi {
-		mid := (lo + hi) / 2
-		if try(tape[:mid]) {
-			hi = mid
-		} else {
-			lo = mid + 1
-		}
-	}
-	if hi <= len(tape) && try(tape[:hi]) {
-		tape = append([]int{}, tape[:hi]...)
-	}
-	for i := 0; i < len(tape) && i < 300; i++ {
-		if tape[i] == 0 {
-			continue
-		}
-		old := tape[i]
-		tape[i] = 0
-		if !try(tape) {
-			tape[i] = old
-		}
-	}
-	// settle the verdict for the final pair
-	if _, nv := e.failing(sc, f.cfg, tape, v.Class, 0, ""); nv != nil {
-		v = nv
-	}
-	return sc, tape, v
+// ---------------------------------------------------------------- scripteng adapter
+
+type chanCase struct {
+	sc        *chanmodel.Scenario
+	ex        *chanmodel.Explorer
+	maxStates int
 }
 
-func equalInts(a, b []int) bool {
-	if len(a) != len(b) {
-		return false
+func newCase(sc *chanmodel.Scenario, maxStates int) *chanCase {
+	sc.Normalise()
+	if sc.Validate() != nil {
+		return nil
 	}
-	for i := range a {
-		if a[i] != b[i] {
-			return false
-		}
+	ex := chanmodel.NewExplorer(sc, maxStates)
+	if !ex.Explore() {
+		return nil
 	}
-	return true
+	return &chanCase{sc: sc, ex: ex, maxStates: maxStates}
 }
 
-// ---------------------------------------------------------------- replay
-
-// Replay re-executes a replay file against the current tree. Exit 1 when the violation reproduces with
-// the same class and digest, 0 when it no longer does, 2 on infrastructure trouble.
-func Replay(rp *evidence.Replay) int {
-	env, err := jbuild.Setup("replay")
-	if err != nil {
-		fmt.Fprintln(os.Stderr, err)
-		return 2
+func (c *chanCase) JSON() json.RawMessage { b, _ := json.Marshal(c.sc); return b }
+func (c *chanCase) Callbacks() []simpool.CallbackSpec {
+	var cbs []simpool.CallbackSpec
+	for i := range c.sc.Cbs {
+		cbs = append(cbs, simpool.CallbackSpec{Fn: fmt.Sprintf("cb%d", i), Args: []any{1000 + i, fmt.Sprintf("arg%d", i)}})
 	}
-	defer env.Cleanup()
-	wl, err := env.CopyWorkload("chanscript")
-	if err != nil {
-		fmt.Fprintln(os.Stderr, err)
-		return 2
-	}
-	script := filepath.Join(env.Scratch, "chanscript.js")
-	if err := env.Compile(wl, script, false, ""); err != nil {
-		fmt.Fprintln(os.Stderr, err)
-		return 2
-	}
-	pool, err := simpool.New(filepath.Join(env.Verif, "sim", "simnode.js"), 1)
-	if err != nil {
-		fmt.Fprintln(os.Stderr, err)
-		return 2
-	}
-	defer pool.Close()
-	var sc chanmodel.Scenario
-	if err := json.Unmarshal(rp.Workload, &sc); err != nil {
-		fmt.Fprintln(os.Stderr, err)
-		return 2
-	}
-	e := &engine{opt: Options{MaxStates: 2000000}, env: env, pool: pool, script: script}
-	ex := e.explore(&sc)
-	if ex == nil {
-		fmt.Fprintln(os.Stderr, "model too large")
-		return 2
-	}
-	tape := rp.Tape
-	if tape == nil {
-		tape = []int{}
-	}
-	results, err := e.runScenario(1, &sc, rp.Sim, []simpool.Run{{Tape: tape}})
-	if err != nil {
-		fmt.Fprintln(os.Stderr, err)
-		return 2
-	}
-	v := Judge(&sc, ex, &results[0])
-	fmt.Printf("replay: end=%s\n", results[0].End)
-	for _, h := range results[0].Hist {
-		fmt.Printf("  #%d turn %d %s\n", h.N, h.T, joinRaw(h.A))
-	}
-	for _, l := range results[0].Out {
-		fmt.Printf("  out: %s\n", l)
-	}
+	return cbs
+}
+func (c *chanCase) Judge(res *simpool.Result) *scripteng.Verdict {
+	v := Judge(c.sc, c.ex, res)
 	if v == nil {
-		fmt.Println("replay: the recorded execution is now allowed (no violation)")
-		return 0
+		return nil
 	}
-	d := evidence.Digest(v.Class, v.Outcome)
-	fmt.Printf("replay: class=%s digest=%s (recorded class=%s digest=%s)\n  %s\n", v.Class, d, rp.Class, rp.Digest, v.Message)
-	if v.Class == rp.Class && d == rp.Digest {
-		fmt.Printf("VIOLATION property=%s replay=%s\n", rp.Property, os.Getenv("VERIF_REPLAY_PATH"))
-		return 1
+	return &scripteng.Verdict{Class: v.Class, Message: v.Message, Digest: v.Outcome}
+}
+func (c *chanCase) Candidates() []scripteng.Case {
+	var out []scripteng.Case
+	for _, sc := range candidates(c.sc) {
+		if nc := newCase(sc, c.maxStates); nc != nil {
+			out = append(out, nc)
+		}
 	}
-	fmt.Println("replay: a different violation than recorded")
-	return 1
+	return out
+}
+func (c *chanCase) Reach() []string {
+	var l []string
+	for k := range c.ex.Reach {
+		l = append(l, k)
+	}
+	for k := range c.sc.Features() {
+		l = append(l, k)
+	}
+	if len(c.ex.Outcomes) > 1 {
+		l = append(l, "several_allowed_outcomes")
+	}
+	sort.Strings(l)
+	return l
+}
+func (c *chanCase) Sample(res *simpool.Result) any {
+	return map[string]any{"scenario": c.sc, "allowed_outcomes": c.ex.SortedOutcomes(), "observed": chanmodel.Observe(c.sc, res).Outcome, "tape": res.Tape}
+}
+func (c *chanCase) ModelSize() (int, int) { return c.ex.States, c.ex.Trans }
+func (c *chanCase) KnownFinding(kf *known.File, property string, v *scripteng.Verdict) string {
+	return kf.MatchChan(property, c.sc, v.Class, v.Message)
 }
 
-func joinRaw(a []json.RawMessage) string {
-	var s []string
-	for _, x := range a {
-		s = append(s, string(x))
+type Options struct {
+	Property    string
+	Tier        string
+	Seed        int64
+	Callbacks   bool
+	Cases       int
+	RunsPerCase int
+	Workers     int
+	MaxStates   int
+	Curated     []*chanmodel.Scenario
+	Budget      time.Duration
+}
+
+func spec(opt Options) scripteng.Spec {
+	sp := scripteng.Spec{Property: opt.Property, Tier: opt.Tier, Seed: opt.Seed, Workload: "chanscript", ReplayKind: "chanscript",
+		Cases: opt.Cases, RunsPerCase: opt.RunsPerCase, Workers: opt.Workers, Budget: opt.Budget,
+		Rule: "one evaluation = one simulated execution of a chanscript scenario under one choice tape; distinct = distinct (scenario, global order of operation invoke/return events across goroutines); " +
+			"non-trivial = at least one operation parked (its return is not adjacent to its invoke in the global history)",
+		Real: []string{"gopherjs compiler built from /repo working tree", "prelude goroutines.js/types.js/prelude.js/jsmapping.js", "runtime and js natives", "chanscript compiled by that compiler"},
+		Stub: []string{"Node event loop and timers (simnode)", "Date.now", "Math.random", "process.exit", "console"},
+		Assumptions: []string{
+			"the simulated event loop only produces behaviours Node/HTML timers allow (timers never early; a timer never overtakes an earlier-created one with a delay <= its own)",
+			"the reference model (DESIGN.md Appendix A) is Go's channel semantics; it was written from the specification, not from the prelude",
+			"workload programs only use packages that build against the sandbox's GOROOT",
+		},
 	}
-	return strings.Join(s, " ")
+	for _, sc := range opt.Curated {
+		c := newCase(sc, 2000000)
+		if c == nil {
+			panic("curated scenario invalid or too large")
+		}
+		sp.Curated = append(sp.Curated, c)
+	}
+	nCur := len(opt.Curated)
+	sp.Generate = func(seed int64, i int) scripteng.Case {
+		r := rng.New(seed, opt.Property, "case", i-nCur)
+		gc := chanmodel.NewGenConfig(rng.New(seed, opt.Property, "swarm", (i-nCur)/25), opt.Callbacks)
+		sc := chanmodel.Generate(r, &gc)
+		if err := sc.Validate(); err != nil {
+			panic("generator produced an invalid scenario: " + err.Error())
+		}
+		c := newCase(sc, opt.MaxStates)
+		if c == nil {
+			return nil
+		}
+		return c
+	}
+	sp.Decode = func(raw json.RawMessage) (scripteng.Case, error) {
+		var sc chanmodel.Scenario
+		if err := json.Unmarshal(raw, &sc); err != nil {
+			return nil, err
+		}
+		c := newCase(&sc, 2000000)
+		if c == nil {
+			return nil, fmt.Errorf("scenario invalid or model too large")
+		}
+		return c, nil
+	}
+	return sp
+}
+
+func Run(opt Options) int { return scripteng.Run(spec(opt)) }
+
+func Replay(rp *evidence.Replay) int {
+	return scripteng.Replay(spec(Options{Property: rp.Property}), rp)
 }
